@@ -399,8 +399,15 @@ class Circuit(object):
 
         def close_command_is_queued(*args):
             return self._closing_deferred
+
+        def close_command_failed(fail):
+            # if Tor closed it before reading our command (so the
+            # command was refused) the circuit is gone all the same
+            if self.state in ('CLOSED', 'FAILED'):
+                return self
+            return fail
         d = self._torstate.close_circuit(self.id, **kw)
-        d.addCallback(close_command_is_queued)
+        d.addCallbacks(close_command_is_queued, close_command_failed)
         return d
 
     def age(self, now=None):
